@@ -347,6 +347,20 @@ pub fn directed(property: &str) -> Vec<Trace> {
                 ],
             ));
             out.push(mk(
+                "C01 right revoked in the room a row leaves, between its creation and its move (and granted again later)",
+                2,
+                vec![
+                    Step::NewRoom { who: 0, room: 0, admins: vec![0], groups: vec![own_only(vec![1])], dt: 20 },
+                    Step::NewRoom { who: 0, room: 1, admins: vec![0], groups: vec![full(vec![1])], dt: 20 },
+                    Step::Create { who: 1, row: 0, room: 0, ent: 0, dt: DAY_MS },
+                    Step::Create { who: 1, row: 1, room: 0, ent: 0, dt: 1000 },
+                    Step::AddRight { who: 0, room: 0, group: 0, right: RightSpec { ent: 0, own: false, all: false }, dt: 3_600_000, nb: false },
+                    Step::Move { who: 1, row: 0, to: 1, dt: DAY_MS },
+                    Step::AddRight { who: 0, room: 0, group: 0, right: RightSpec { ent: 0, own: true, all: false }, dt: 3_600_000, nb: false },
+                    Step::Move { who: 1, row: 1, to: 1, dt: DAY_MS },
+                ],
+            ));
+            out.push(mk(
                 "C01 foreign row updated and its reference deleted with own-rows only",
                 2,
                 vec![
